@@ -418,6 +418,26 @@ func EnumTrees(ctx *ev.Ctx, fn func(*Config, TreeCase)) string {
 				emit(c, h, []atoms.N{a})
 			}
 		}
+		// 0b. text values that differ in the case of their letters only, next to each other in one
+		// message (and, as single-AVP messages, one after the other): every octet is data
+		for k := atoms.Kind(0); k <= atoms.KQoS; k++ {
+			d, ok := c.A.Plain[k]
+			if !ok {
+				continue
+			}
+			mk := func(s string) atoms.N {
+				return atoms.N{Code: d.Code, Flags: mflag(d.Must), Vendor: d.Vendor, V: atoms.Val{K: k, S: []byte(s)}}
+			}
+			for _, pair := range [][2]string{{"HSS01.Example.ORG", "hss01.example.org"}, {"Ab.Example", "aB.example"}, {"REALM", "realm"}, {"x", "X"}} {
+				up, lo := mk(pair[0]), mk(pair[1])
+				emit(c, hs[0], []atoms.N{up})
+				emit(c, hs[0], []atoms.N{lo})
+				emit(c, hs[0], []atoms.N{up})
+				emit(c, hs[0], []atoms.N{up, lo})
+				emit(c, hs[1], []atoms.N{lo, up})
+				emit(c, hs[0], []atoms.N{up, lo, up, lo})
+			}
+		}
 		// 1. all ordered pairs of the mid alphabet
 		for i, a := range mid {
 			for j, b := range mid {
@@ -500,7 +520,7 @@ func EnumTrees(ctx *ev.Ctx, fn func(*Config, TreeCase)) string {
 			}
 		}
 	}
-	return "every single AVP atom (all value atoms of every data type, plain / vendor-specific / undefined code) x header variants; all ordered pairs of the mid alphabet; all ordered triples of the core alphabet; grouped AVPs holding every sequence of <=2 core atoms at nesting depth 1..3 (4 thorough), empty groups, group siblings; all 256 header flag bytes x every dictionary command x ids from {0,1,2^31,2^32-1}^2; under dict.Default (apps 4,0,16777251,16777238,3), base alone, base + each embedded dictionary alone, and a generated dictionary declaring every type name. A case is distinct by (configuration, header, reference encoding of the tree)."
+	return "text values of every string-like data type that differ in letter case only, side by side in one message; every single AVP atom (all value atoms of every data type, plain / vendor-specific / undefined code) x header variants; all ordered pairs of the mid alphabet; all ordered triples of the core alphabet; grouped AVPs holding every sequence of <=2 core atoms at nesting depth 1..3 (4 thorough), empty groups, group siblings; all 256 header flag bytes x every dictionary command x ids from {0,1,2^31,2^32-1}^2; under dict.Default (apps 4,0,16777251,16777238,3), base alone, base + each embedded dictionary alone, and a generated dictionary declaring every type name. A case is distinct by (configuration, header, reference encoding of the tree)."
 }
 
 var _ = datatype.UnknownType
